@@ -337,7 +337,7 @@ func main() {
 	ctx.JobsW("product", 1, 4, func(int) { product() })
 	ctx.Jobs("sender", len(alphabet), func(j int) { senderSpace(j) })
 	ctx.Jobs("pauses", 8, func(j int) { pauses(j, 8) })
-	ctx.Jobs("thru", 1, func(int) { thru(); refused() })
+	ctx.Jobs("thru", 1, func(int) { thru(); refused(); fractions() })
 	ctx.Set("traces_validated_against_impl", ctx.GetInt("transitions"))
 	ctx.Set("max_depth", ctx.GetInt("max:depth"))
 	ctx.Set("fixpoint_reached", ctx.GetInt("fixpoints_reached") == 1)
@@ -350,9 +350,10 @@ func main() {
 
 func replay() {
 	m := ctx.LoadReplay()
-	if m["kind"] == "thru" || m["kind"] == "refused" {
+	if m["kind"] == "thru" || m["kind"] == "refused" || m["kind"] == "fractions" {
 		thru()
 		refused()
+		fractions()
 		ctx.Finish("replay")
 	}
 	if m["kind"] == "stream" {
